@@ -100,6 +100,144 @@ let parse_values tok =
 let dna = "ACTGN"
 let prot = "ACDEFGHIKLMNPQRSTVWYX"
 
+(* the striped matrix printed by the harness: <len>/<wrap>/<row,row,..> ('a' + symbol) *)
+let parse_sq tok : sseq =
+  match String.split_on_char '/' tok with
+  | [len; wr; body] ->
+      let rows = if body = "" then [] else
+          List.map (fun r -> List.init (String.length r) (fun i -> nat_of_int (Char.code r.[i] - 97)))
+            (String.split_on_char ',' body) in
+      { sq_len = nat_of_int (int_of_string len); sq_wrap = nat_of_int (int_of_string wr); sq_mat = rows }
+  | _ -> failwith "bad striped matrix token"
+
+exception Done
+
+(* ---- HISTORY cases: one reused StripedScores buffer driven through a list of calls ----
+   Every step is replayed with the extracted model ScoresModel.hstep from the state the
+   implementation was observed in before the step (C01Scores.C01_scores_history holds for every
+   initial content of the buffer, so this includes the state a caught panic leaves behind); the
+   logical content after each step (unstripe, len, is_empty, Index) is compared with the functions
+   written from the statement skeleton of scores.rs (GenScores.v).
+   PROPFAIL: a scoring call on a configured sequence whose result is not the one the same call
+   gives on a fresh buffer through the generic pipeline (check_same_results), or, after a full
+   scan, a logical content that is not the L-M+1 defined scores of that call (check_C01). *)
+let hist_case (fields : (string * string) list) (obs : string) pf df =
+  let get k = List.assoc k fields in
+  let ofields = List.map kv (String.split_on_char ' ' obs) in
+  let oget k = List.assoc k ofields in
+  let ohas k = List.mem_assoc k ofields in
+  let c = int_of_string (get "C") in
+  let cn = nat_of_int c in
+  let pad = f32_of_int (int_of_string ("0x" ^ get "pad")) in
+  let alpha_of abc = if abc = "dna" then dna else prot in
+  let ms = Array.of_list (List.map (fun m ->
+      match Str.bounded_split (Str.regexp_string ":") m 2 with
+      | [abc; rows] ->
+          let k = String.length (alpha_of abc) in
+          let bits = if rows = "-" then [] else
+              List.map (fun r -> Array.init k (fun i -> hex8 r i)) (String.split_on_char ';' rows) in
+          (abc, k, List.map (fun r -> Array.to_list (Array.map f32_of_int r)) bits)
+      | _ -> failwith "ms") (String.split_on_char '|' (get "ms"))) in
+  let qs = Array.of_list (List.mapi (fun j qd ->
+      match Str.bounded_split (Str.regexp_string ":") qd 3 with
+      | [abc; wrap; letters] ->
+          let alpha = alpha_of abc in
+          let letters = if letters = "-" then "" else letters in
+          let s = List.init (String.length letters) (fun i -> nat_of_int (String.index alpha letters.[i])) in
+          let q = parse_sq (oget (Printf.sprintf "q%d" j)) in
+          let wild = nat_of_int (String.length alpha - 1) in
+          let ok = x_striped_b cn wild s q in
+          if not ok then df (Printf.sprintf "striped-hypothesis q%d" j);
+          if int_of_nat q.sq_wrap <> int_of_string wrap then df (Printf.sprintf "wrap of q%d" j);
+          (abc, s, q, String.length letters, ok)
+      | _ -> failwith "qs") (String.split_on_char '|' (get "qs"))) in
+  let backend_of = function
+    | "g" -> BGeneric | "s" -> BSse2 | "a" -> BAvx2
+    | "dg" -> BDispatch ArmGeneric | "ds" -> BDispatch ArmSse2 | "da" -> BDispatch ArmAvx2
+    | _ -> failwith "pipeline" in
+  let buf = ref { sc_mat = []; sc_max = O } in
+  List.iteri (fun i opt ->
+      let parts = Array.of_list (String.split_on_char '.' opt) in
+      let num k = int_of_string parts.(k) in
+      let scoring = parts.(0) = "S" || parts.(0) = "R" in
+      let op : f32 hop =
+        match parts.(0) with
+        | "S" | "R" ->
+            let (_, k, pssm) = ms.(num 2) and (_, _, q, _, _) = qs.(num 3) in
+            let stride = ((k * 4 + 31) / 32) * 8 in
+            let pad_row = List.init (stride - k) (fun _ -> pad) in
+            let call = { c_be = backend_of parts.(1); c_K = nat_of_int k; c_pssm = pssm;
+                         c_pads = (fun _ -> pad_row); c_seq = q } in
+            if parts.(0) = "S" then HScoreInto call else HRowsInto (call, nat_of_int (num 4), nat_of_int (num 5))
+        | "Z" -> HResize (nat_of_int (num 1), nat_of_int (num 2))
+        | "C" -> HClone
+        | "D" -> HDefault
+        | _ -> failwith "history op" in
+      let key k = Printf.sprintf "%s%d" k i in
+      let what = Printf.sprintf "history step %d (%s)" i opt in
+      let otok = oget (key "o") in
+      let panicked = String.length otok >= 2 && String.sub otok 0 2 = "P|" in
+      let stok = if panicked then String.sub otok 2 (String.length otok - 2) else otok in
+      let ostate = parse_res c stok in
+      (match x_hstep cn op !buf, panicked with
+       | Ok m, false -> if obs_of_model (Ok m) <> Some ostate then df (what ^ " cells-or-outcome")
+       | Panic _, true -> ()
+       | Ok _, true -> df (what ^ " panics, the model does not")
+       | Panic _, false -> df (what ^ " does not panic, the model does")
+       | _ -> df (what ^ " model-error"));
+      buf := sscores_of_obs_raw ostate;
+      let b = !buf in
+      (* logical content, through the functions generated from the skeleton of scores.rs *)
+      let vals = if ohas (key "u") then parse_values (oget (key "u")) else None in
+      (match x_sk_unstripe cn b, vals with
+       | Ok mv, Some v -> if Array.of_list (List.map int_of_f32 mv) <> v then df (what ^ " unstripe")
+       | Panic _, None -> ()
+       | _ -> df (what ^ " unstripe outcome"));
+      if oget (key "l") <> string_of_int (int_of_nat (x_sk_iter_end cn b)) then df (what ^ " iter().len()");
+      if (oget (key "e") = "1") <> x_sk_is_empty b then df (what ^ " is_empty");
+      List.iter (fun t ->
+          match String.split_on_char ':' t with
+          | [j; v] ->
+              let mo = match x_sk_index b (nat_of_int (int_of_string j)) with
+                | Ok x -> Printf.sprintf "%08x" (int_of_f32 x) | Panic _ -> "P" | _ -> "?" in
+              if mo <> v then df (what ^ " index " ^ j)
+          | _ -> failwith "x") (String.split_on_char ';' (oget (key "x")));
+      if ohas (key "v") then df (what ^ ": " ^ oget (key "v") ^ " disagrees with unstripe()");
+      if scoring then begin
+        let (abc, _, pssm) = ms.(num 2) and (_, s, q, l, striped_ok) = qs.(num 3) in
+        let wild = nat_of_int (String.length (alpha_of abc) - 1) in
+        let m = List.length pssm in
+        let configured = m >= 1 && int_of_nat q.sq_wrap >= m - 1 && striped_ok in
+        let ftok = let t = oget (key "f") in if t = "=" then otok else t in
+        (match x_ref_call cn op, ftok with
+         | Panic _, "P" -> ()
+         | Ok r, t when t <> "P" -> if obs_of_model (Ok r) <> Some (parse_res c t) then df (what ^ " fresh generic call differs from the model")
+         | _ -> df (what ^ " fresh generic call outcome"));
+        if configured then begin
+          if parts.(0) = "S" && panicked then pf (what ^ ": full scan of a configured sequence panics")
+          else if panicked <> (ftok = "P") then
+            pf (what ^ (if panicked then ": panics on the reused buffer but not on a fresh one"
+                        else ": does not panic on the reused buffer, the generic pipeline on a fresh one does"))
+          else if not panicked then begin
+            if not (check_same_results (cobs c ftok) [cobs c otok]) then
+              pf (what ^ ": result differs from the same call on a fresh buffer (generic pipeline)")
+            else if parts.(0) = "S" then begin
+              match vals with
+              | None -> pf (what ^ ": unstripe panics")
+              | Some v ->
+                  let nvals = max 0 (l + 1 - m) in
+                  if Array.length v <> nvals then
+                    pf (Printf.sprintf "%s: count %d expected %d" what (Array.length v) nvals)
+                  else if not (check_C01 wild pssm s (Array.to_list (Array.map f32_of_int v))) then
+                    pf (what ^ ": a value fails the definition")
+                  else if oget (key "l") <> string_of_int nvals then pf (what ^ ": len() is not L-M+1")
+                  else if (oget (key "e") = "1") <> (l < m) then pf (what ^ ": is_empty() is not (L < M)")
+            end
+          end
+        end
+      end)
+    (String.split_on_char ',' (get "ops"))
+
 let () =
   (* the reflection check of the AVX2 lane tables regenerated by the translator: when it fails
      the kernel-equality theorems no longer check either (broken obligation); every case is
@@ -121,6 +259,7 @@ let () =
         if layout_bad then df "avx2 lane tables fail the layout check (avx2_layout_ok)";
         (try
           let fields = List.map kv (List.tl toks) in
+          if List.mem_assoc "hist" fields then begin hist_case fields obs pf df; raise Done end;
           let get k = List.assoc k fields in
           let ofields = List.map kv (String.split_on_char ' ' obs) in
           let oget k = List.assoc k ofields in
@@ -379,6 +518,7 @@ let () =
               | _ -> failwith "sp")
             (if oget "sp" = "-" then [] else String.split_on_char ',' (oget "sp"))
         with
+        | Done -> ()
         | Not_found -> df "driver: missing field"
         | Failure e -> df ("driver: " ^ e)
         | Invalid_argument e -> df ("driver: " ^ e));
